@@ -761,30 +761,59 @@ class List(list, base.Symbolic, pg_typing.CustomTyping):
     if self._value_spec and self._value_spec.min_size > 0:
       raise ValueError(
           f'List cannot be cleared: min size is {self._value_spec.min_size}.')
+    old_values = list(self.sym_values())
     # Detach the removed values from the object tree.
-    for old_value in self.sym_values():
+    for old_value in old_values:
       if isinstance(old_value, base.TopologyAware):
         old_value.sym_setparent(None)
     super().clear()
     self._invalidate_content_caches()
 
+    updates = []
+    for i, old_value in enumerate(old_values):
+      updates.append(
+          base.FieldUpdate(
+              self.sym_path + i, self,
+              self._value_spec.element if self._value_spec else None,
+              old_value, pg_typing.MISSING_VALUE))
+    if flags.is_change_notification_enabled() and updates:
+      self._notify_field_updates(updates)
+
   def sort(self, *, key=None, reverse=False) -> None:
     """Sorts the items of the list in place.."""
     if base.treats_as_sealed(self):
       raise base.WritePermissionError('Cannot sort a sealed List.')
+    old_values = list(self.sym_values())
     super().sort(key=key, reverse=reverse)
     # The items have moved: re-index the children.
     self._update_children_paths(self.sym_path, self.sym_path)
     self._invalidate_content_caches()
+    self._notify_moved_items(old_values)
 
   def reverse(self) -> None:
     """Reverse the elements of the list in place."""
     if base.treats_as_sealed(self):
       raise base.WritePermissionError('Cannot reverse a sealed List.')
+    old_values = list(self.sym_values())
     super().reverse()
     # The items have moved: re-index the children.
     self._update_children_paths(self.sym_path, self.sym_path)
     self._invalidate_content_caches()
+    self._notify_moved_items(old_values)
+
+  def _notify_moved_items(self, old_values: typing.List[Any]) -> None:
+    """Notifies the positions whose item changed by an in-place reordering."""
+    updates = []
+    for i, old_value in enumerate(old_values):
+      new_value = self.sym_getattr(i)
+      if new_value is not old_value:
+        updates.append(
+            base.FieldUpdate(
+                self.sym_path + i, self,
+                self._value_spec.element if self._value_spec else None,
+                old_value, new_value))
+    if flags.is_change_notification_enabled() and updates:
+      self._notify_field_updates(updates)
 
   def custom_apply(
       self,
